@@ -165,6 +165,33 @@ pub fn main(o: &Opts) -> i32 {
         for _ in 0..rng.random_range(0..=2) { edges.push((rng.random_range(1..=5), rng.random_range(1..=5), w(&mut rng))); }
         out.emit(&run_case(cid, 5, &edges));
     }
+    // block graphs: cycles (and single edges) glued at shared vertices, nodes numbered in a random order and every edge
+    // in a random direction - the shapes on which low-link computations (articulation points, bridges, strongly
+    // connected components) depend on the order of discovery
+    for _ in 0..o.usize("blocks", 80) {
+        cid += 1;
+        let nmax = 7usize;
+        let mut und: Vec<(usize, usize)> = vec![];
+        let mut n = 0usize;
+        let first = rng.random_range(3..=4usize);
+        for i in 0..first { und.push((i, (i + 1) % first)); }
+        n += first;
+        while n < nmax && rng.random_bool(0.8) {
+            let at = rng.random_range(0..n);
+            let size = rng.random_range(1..=3usize).min(nmax - n);   // new vertices of the block
+            let mut prev = at;
+            for k in 0..size { und.push((prev, n + k)); prev = n + k; }
+            if size >= 2 || rng.random_bool(0.3) { und.push((prev, at)); }   // close the cycle (size 1 closed = parallel edges)
+            n += size;
+        }
+        if rng.random_bool(0.2) { let a = rng.random_range(0..n); und.push((a, a)); }
+        // random numbering = random creation order
+        let mut perm: Vec<usize> = (1..=n).collect();
+        for i in (1..n).rev() { let j = rng.random_range(0..=i); perm.swap(i, j); }
+        let mut edges: Vec<(usize, usize, Option<i64>)> = und.iter().map(|(a, b)| { let (x, y) = (perm[*a], perm[*b]); if rng.random_bool(0.5) { (x, y, Some(rng.random_range(1..=3i64))) } else { (y, x, Some(rng.random_range(1..=3i64))) } }).collect();
+        for i in (1..edges.len()).rev() { let j = rng.random_range(0..=i); edges.swap(i, j); }
+        out.emit(&run_case(cid, n, &edges));
+    }
     let n = out.n;
     out.finish();
     println!("{{\"cases\": {n}}}");
